@@ -4,10 +4,13 @@ import (
 	"encoding/json"
 	"fmt"
 	"strconv"
+	"strings"
 	"testing"
+	"time"
 
 	"github.com/orda-io/orda/client/pkg/model"
 	"pgregory.net/rapid"
+	"verif/fakemongo"
 	"verif/sim"
 	"verif/stats"
 )
@@ -355,3 +358,96 @@ func TestC15HistoryCounter(t *testing.T)  { testC15History(t, sim.Counter) }
 func TestC15HistoryMap(t *testing.T)      { testC15History(t, sim.Map) }
 func TestC15HistoryList(t *testing.T)     { testC15History(t, sim.List) }
 func TestC15HistoryDocument(t *testing.T) { testC15History(t, sim.Document) }
+
+// TestC15RestPatch: the operations the REST patch endpoint issues (through the server's own replica of
+// the document, rebuilt from the latest snapshot and the later operations) obey the same identifier
+// rules as a client's: ordered after everything that replica had applied, and never sharing a
+// timestamp with another operation.
+func TestC15RestPatch(t *testing.T) {
+	col := stats.New("C15", t.Name(),
+		"a document on the real server: a client creates it and pushes 1-6 operations (a snapshot is stored or - drawn - its insert is made to fail), then 1-4 REST patches interleaved with further client pushes; "+
+			"oracle on the stored log after every patch: every operation a patch appended has a clock value greater than that of every operation stored before it (its replica had applied them all), and no two operations of the log share (era, clock, client id); "+
+			"non-trivial = >=2 patches with a stored snapshot in between; distinct = the drawn scenario")
+	col.Assume("identifier reuse of the kind (client id, sequence number) by REST patches is known finding S17b (C19) and not asserted here; timestamps (clock, client id) are")
+	checkProp(t, "C15", col, func(c *caseCtx) {
+		rt := c.rt
+		idseed := rapid.Uint64Range(1, 1<<40).Draw(rt, "idseed")
+		w, err := newL1World(idseed, []sim.Kind{sim.Document})
+		if err != nil {
+			c.failf("HARNESS-ERROR: %v", err)
+		}
+		defer w.close()
+		patchesHappened = true
+		k := w.keys[0]
+		noSnapshot := rapid.IntRange(0, 3).Draw(rt, "no_snapshot") == 0
+		if noSnapshot {
+			w.env.Mongo.SetFaultHook(func(cmd *fakemongo.Cmd) fakemongo.Fault {
+				if cmd.Verb == "insert" && strings.HasSuffix(cmd.NS, ".-_-Snapshots") {
+					return fakemongo.FailBefore
+				}
+				return fakemongo.None
+			})
+		}
+		cl, err := w.addClient()
+		if err != nil {
+			c.failf("HARNESS-ERROR: %v", err)
+		}
+		d := w.open(cl, k, "create")
+		n0 := rapid.IntRange(1, 6).Draw(rt, "initial_ops")
+		for i := 0; i < n0; i++ {
+			sim.Exec(sim.Document, d.dt, c06CheapCall(sim.Document, i))
+		}
+		if ex := w.syncClient(cl); ex == nil || exchangeProblem(cl, ex) != nil {
+			c.failf("HARNESS-ERROR: setup sync failed")
+		}
+		w.env.WaitBackground(3 * time.Second)
+		check := func(when string, from int) int {
+			log, _ := w.storedLog(k.duid)
+			seen := map[string]int{}
+			var maxClock uint64
+			for i, so := range log {
+				id := so.op.ID
+				key := fmt.Sprintf("%d:%d:%s", id.Era, id.Lamport, id.CUID)
+				if j, dup := seen[key]; dup && so.op.OpType != model.TypeOfOperation_TRANSACTION && log[j].op.OpType != model.TypeOfOperation_TRANSACTION {
+					c.failf("%s: the operations at log positions %d and %d share the timestamp %s", when, j+1, i+1, key)
+				}
+				seen[key] = i
+				if i >= from && !knownCUIDs[id.CUID] && id.Lamport <= maxClock {
+					c.failf("%s: the REST patch operation at log position %d has clock %d, but the replica that issued it had already applied an operation with clock %d (log positions 1..%d)", when, i+1, id.Lamport, maxClock, i)
+				}
+				if id.Lamport > maxClock {
+					maxClock = id.Lamport
+				}
+			}
+			return len(log)
+		}
+		end := check("after the setup", 1<<30)
+		np := rapid.IntRange(1, 4).Draw(rt, "patches")
+		var canon strings.Builder
+		canon.WriteString(fmt.Sprintf("nosnap=%v;init=%d;", noSnapshot, n0))
+		for pi := 0; pi < np; pi++ {
+			if rapid.Bool().Draw(rt, fmt.Sprintf("client_push%d", pi)) {
+				sim.Exec(sim.Document, d.dt, c06CheapCall(sim.Document, 50+pi))
+				if ex := w.syncClient(cl); ex == nil || exchangeProblem(cl, ex) != nil {
+					c.failf("client sync between patches failed")
+				}
+				w.env.WaitBackground(3 * time.Second)
+				end = check("after a client push", 1<<30)
+				canon.WriteString("push;")
+			}
+			js := fmt.Sprintf(`{"patch":%d,"arr":[%d,%d],"o":{"x":%d}}`, pi, pi, pi+1, pi)
+			if _, e, to := w.env.PatchDocument(&model.PatchMessage{Collection: w.col, Key: k.Name, Json: js}, l1Deadline); e != nil || to {
+				c.failf("REST patch %d: err=%v timeout=%v", pi, e, to)
+			}
+			w.env.WaitBackground(3 * time.Second)
+			end = check(fmt.Sprintf("after REST patch %d", pi+1), end)
+			canon.WriteString("patch;")
+		}
+		if err := w.infraProblem(); err != nil {
+			c.failf("%v", err)
+		}
+		col.Case(np >= 2 && !noSnapshot, canon.String(), []string{fmt.Sprintf("patches=%d", np), fmt.Sprintf("stored-snapshot=%v", !noSnapshot)}, func() interface{} {
+			return map[string]interface{}{"scenario": canon.String(), "log_length": end}
+		})
+	})
+}
